@@ -42,11 +42,11 @@ class Killed(Exception):
 def lattice_spec(
     n=4, moves=None, workers=1, steps=20, seed=1, cap=None, wall=-1, n_jumps=2, maxlength=400,
     allowmaxlength=False, delete_old=False, delete_old_all=False, subcycles=1, screen=0,
-    engine="lattice", ensemble_engines=None, extra_engines=None, zeroswap=None, origin=0.0, lm1=None, keep_side=False,
+    engine="lattice", ensemble_engines=None, extra_engines=None, zeroswap=None, origin=0.0, lm1=None, keep_side=False, pattern=False,
 ):
     moves = list(moves) if moves else ["sh"] * n
     return dict(
-        origin=origin, lm1=lm1, keep_side=keep_side,
+        origin=origin, lm1=lm1, keep_side=keep_side, pattern=pattern,
         n=n, moves=moves, workers=workers, steps=steps, seed=seed, cap=cap, wall=wall, n_jumps=n_jumps,
         maxlength=maxlength, allowmaxlength=allowmaxlength, delete_old=delete_old,
         delete_old_all=delete_old_all, subcycles=subcycles, screen=screen, engine=engine,
@@ -96,7 +96,7 @@ def lattice_config(spec):
         "output": {
             "data_dir": "./",
             "screen": spec["screen"],
-            "pattern": False,
+            "pattern": bool(spec.get("pattern", False)),
             "delete_old": spec["delete_old"],
             "delete_old_all": spec["delete_old_all"],
         },
